@@ -18,6 +18,9 @@ pub struct Scenario {
     /// Run the odd-millisecond sampler (wait-for graph snapshots; needs the verification hook).
     #[serde(default)]
     pub sampler: bool,
+    /// Spawn one more (default-scripted) actor after the main phase and probe it (C12).
+    #[serde(default)]
+    pub late_spawn: bool,
     /// Free-form note (profile name etc.); not interpreted.
     #[serde(default)]
     pub note: String,
@@ -221,6 +224,40 @@ pub enum Op {
 }
 
 impl Scenario {
+    /// message ids must be unique (every oracle identifies messages by id)
+    pub fn well_formed(&self) -> bool {
+        fn walk(steps: &[Step], seen: &mut std::collections::HashSet<u32>) -> bool {
+            for s in steps {
+                if let Step::Send { msg, .. } = s {
+                    if !seen.insert(msg.id) || !walk(&msg.steps, seen) {
+                        return false;
+                    }
+                }
+            }
+            true
+        }
+        let mut seen = std::collections::HashSet::new();
+        for a in &self.actors {
+            if !walk(&a.start.steps, &mut seen) || !walk(&a.stop.steps, &mut seen) {
+                return false;
+            }
+            for r in &a.runs {
+                if !walk(&r.steps, &mut seen) {
+                    return false;
+                }
+            }
+        }
+        for c in &self.clients {
+            for o in &c.ops {
+                if let Op::Send { msg, .. } = &o.op {
+                    if !seen.insert(msg.id) || !walk(&msg.steps, &mut seen) {
+                        return false;
+                    }
+                }
+            }
+        }
+        true
+    }
     pub fn to_json(&self) -> String {
         serde_json::to_string(self).unwrap()
     }
